@@ -16,19 +16,21 @@
     && (p)->coeff[12] < 2048 && (p)->coeff[13] < 2048 && (p)->coeff[14] < 2048 \
     && (p)->coeff[15] < 2048)
 
-static inline unsigned spec_eval_poly(const gf_poly* p) {
+static inline unsigned spec_eval_poly_v(gf_poly p) {
     unsigned c[16];
-    for (int i = 0; i < 16; ++i) c[i] = (unsigned)p->coeff[i];
+    for (int i = 0; i < 16; ++i) c[i] = (unsigned)p.coeff[i];
     return spec_eval16(c);
 }
+#define spec_eval_poly(pp) spec_eval_poly_v(*(pp))
 
 /* evaluation with coefficient 0 taken as zero (what gf_poly_encode stores) */
-static inline unsigned spec_eval_poly0(const gf_poly* p) {
+static inline unsigned spec_eval_poly0_v(gf_poly p) {
     unsigned c[16];
     c[0] = 0;
-    for (int i = 1; i < 16; ++i) c[i] = (unsigned)p->coeff[i];
+    for (int i = 1; i < 16; ++i) c[i] = (unsigned)p.coeff[i];
     return spec_eval16(c);
 }
+#define spec_eval_poly0(pp) spec_eval_poly0_v(*(pp))
 
 static inline gf_elem gf_elem_mul2(gf_elem x)
     __CPROVER_requires(x < 2048 && TABLE_OK)
@@ -59,15 +61,18 @@ static inline bool gf_poly_check(const gf_poly* message)
 
 /* ---- packing (src/gf.c) ------------------------------------------------- */
 
-#define PACK_ENS(i) __CPROVER_ensures(poly->coeff[1 + (i)] == spec_word(data, (i)))
+/* by-value helpers: one dereference of each (possibly symbolic) pointer */
+static inline bool spec_pack_matches(polyseed_data d, gf_poly p) {
+    bool r = true;
+    for (unsigned i = 0; i < 15u; ++i) r = r && (p.coeff[1u + i] == spec_word(&d, i));
+    return r;
+}
 void polyseed_data_to_poly(const polyseed_data* data, gf_poly* poly)
     __CPROVER_requires(__CPROVER_is_fresh(data, sizeof(*data)))
     __CPROVER_requires(__CPROVER_is_fresh(poly, sizeof(*poly)))
     __CPROVER_requires(data->birthday < 1024 && data->features < 32)
     __CPROVER_assigns(__CPROVER_object_from(&poly->coeff[1]))
-    PACK_ENS(0) PACK_ENS(1) PACK_ENS(2) PACK_ENS(3) PACK_ENS(4)
-    PACK_ENS(5) PACK_ENS(6) PACK_ENS(7) PACK_ENS(8) PACK_ENS(9)
-    PACK_ENS(10) PACK_ENS(11) PACK_ENS(12) PACK_ENS(13) PACK_ENS(14);
+    __CPROVER_ensures(spec_pack_matches(*data, *poly));
 
 static inline unsigned spec_unpack_byte_poly(const gf_poly* p, unsigned j) {
     unsigned c[16];
@@ -80,20 +85,23 @@ static inline unsigned spec_unpack_extra_poly(const gf_poly* p) {
     return spec_unpack_extra(c);
 }
 
-#define UNPACK_ENS(j) __CPROVER_ensures(data->secret[(j)] == spec_unpack_byte_poly(poly, (j)))
+static inline bool spec_unpack_matches(gf_poly p, polyseed_data d) {
+    unsigned c[16];
+    for (int i = 0; i < 16; ++i) c[i] = (unsigned)p.coeff[i];
+    bool r = (d.checksum == p.coeff[0]);
+    unsigned e = spec_unpack_extra(c);
+    r = r && d.birthday == (e & 1023u) && d.features == (e >> 10);
+    for (unsigned j = 0; j < 32u; ++j) r = r && (d.secret[j] == spec_unpack_secret_byte(c, j));
+    return r;
+}
+static inline bool spec_shape_v(polyseed_data s) { return spec_shape(&s); }
+static inline bool spec_canonical_v(polyseed_data s) { return spec_shape(&s) && s.checksum == spec_check(&s); }
+
 void polyseed_poly_to_data(const gf_poly* poly, polyseed_data* data)
     __CPROVER_requires(__CPROVER_is_fresh(poly, sizeof(*poly)))
     __CPROVER_requires(__CPROVER_is_fresh(data, sizeof(*data)))
     __CPROVER_requires(COEFFS_OK(poly))
     __CPROVER_assigns(__CPROVER_object_whole(data))
-    __CPROVER_ensures(data->checksum == poly->coeff[0])
-    __CPROVER_ensures(data->birthday == (spec_unpack_extra_poly(poly) & 1023u))
-    __CPROVER_ensures(data->features == (spec_unpack_extra_poly(poly) >> 10))
-    UNPACK_ENS(0) UNPACK_ENS(1) UNPACK_ENS(2) UNPACK_ENS(3) UNPACK_ENS(4) UNPACK_ENS(5)
-    UNPACK_ENS(6) UNPACK_ENS(7) UNPACK_ENS(8) UNPACK_ENS(9) UNPACK_ENS(10) UNPACK_ENS(11)
-    UNPACK_ENS(12) UNPACK_ENS(13) UNPACK_ENS(14) UNPACK_ENS(15) UNPACK_ENS(16) UNPACK_ENS(17)
-    UNPACK_ENS(18) UNPACK_ENS(19) UNPACK_ENS(20) UNPACK_ENS(21) UNPACK_ENS(22) UNPACK_ENS(23)
-    UNPACK_ENS(24) UNPACK_ENS(25) UNPACK_ENS(26) UNPACK_ENS(27) UNPACK_ENS(28) UNPACK_ENS(29)
-    UNPACK_ENS(30) UNPACK_ENS(31)
-    __CPROVER_ensures(spec_shape(data));
+    __CPROVER_ensures(spec_unpack_matches(*poly, *data))
+    __CPROVER_ensures(spec_shape_v(*data));
 #endif
